@@ -26,7 +26,12 @@ def main() -> int:
     ctx = Ctx(pid, tier, a.seed)
     if a.replay:
         case = json.load(open(a.replay))
-        return mod.replay(ctx, case)
+        if hasattr(mod, "replay"):
+            return mod.replay(ctx, case)
+        # generic replay: show the recorded failing case (input / schedule / history) and how it was judged
+        print(json.dumps(case, indent=1)[:6000])
+        print(f"[{pid}] recorded case shown above; clause(s): {case.get('clause')}; re-run `./check {pid}` to re-judge on the current tree")
+        return 0
     if a.selftest:
         return mod.selftest(ctx)
     return mod.run(ctx)
